@@ -10,7 +10,8 @@
    `parse` (Syntax/Parser.v) = the model of numbat's parser on a token list. *)
 From Coq Require Import List NArith ZArith Bool.
 From NV Require Import Syntax.Token Syntax.Ast Syntax.Parser Syntax.Grammar
-     Syntax.ParserProofs Syntax.GrammarProofs Syntax.OpTableCheck Syntax.LexTable Gen.OpTable.
+     Syntax.ParserProofs Syntax.GrammarProofs Syntax.OpTableCheck Syntax.LexTable Syntax.FuelProofs
+     Syntax.SoundProofs Gen.OpTable.
 Import ListNotations.
 
 (* Every well-formed derivation tree, of any size and nesting depth, is read back as exactly
@@ -59,9 +60,33 @@ Theorem C10_lex_tables :
 Proof. exact lex_tables. Qed.
 Print Assumptions C10_lex_tables.
 
-(* NOT PROVED (partial): soundness — whatever the parser accepts is the print of a
-   well-formed derivation tree and denotes it.  Rejection of inputs outside the grammar
-   rests on the model/implementation correspondence and the reference recogniser. *)
+(* The parser model never runs out of fuel, on ANY token list (fuel = S (length tokens) at every
+   loop and for the nesting depth): OutOfFuel is an unreachable result. *)
+Theorem C10_fuel : forall ts : list token, parse ts <> OutOfFuel.
+Proof. exact parse_never_out_of_fuel. Qed.
+Print Assumptions C10_fuel.
+
+(* Soundness on the expression core (token lists without newline, trailing comma and `;`; list and
+   struct literals included):
+   whatever the parser accepts is the print of a well-formed derivation tree of the documented
+   grammar and the result is the documented tree of it — nothing outside the grammar is accepted or
+   reinterpreted. *)
+Theorem C10_sound_core : forall ts es,
+  core ts = true -> no_separator ts = true -> parse ts = Ok es [] ->
+  ts = [] /\ es = [] \/ exists t, wf t = true /\ pr t = ts /\ es = [desugar t].
+Proof. exact parse_sound. Qed.
+Print Assumptions C10_sound_core.
+
+(* Together with C10_roundtrip: acceptance on the core is characterised exactly. *)
+Theorem C10_characterised : forall ts e,
+  core ts = true -> no_separator ts = true ->
+  (parse ts = Ok [e] [] <-> exists t, wf t = true /\ pr t = ts /\ desugar t = e).
+Proof. exact parse_characterised. Qed.
+Print Assumptions C10_characterised.
+
+(* NOT PROVED (partial): soundness for token lists with newlines (skipped inside argument lists,
+   conditionals and literals), trailing commas and several statements.
+   There the correspondence check and the reference recogniser decide. *)
 Definition C10_full : Prop :=
   forall ts es, parse ts = Ok es [] ->
   exists trees, Forall (fun t => wf t = true) trees /\ map desugar trees = es.
@@ -106,6 +131,15 @@ Example C10_ex_min_paren :
     = [TLParen; TIdent [97]; TPower; TIdent [98]; TRParen; TPower; TIdent [99]]%N
   /\ pr (min_paren (EBin Power a (EBin Power b c)))
     = [TIdent [97]; TPower; TIdent [98]; TPower; TIdent [99]]%N.
+Proof. vm_compute. repeat split; reflexivity. Qed.
+
+(* list and struct literals are part of the grammar of the theorems *)
+Example C10_ex_list_struct :
+  let t := SField (SStruct [83]%N [([97]%N, SList [num_ 49; SBin TPlus (num_ 50) (id_ 120)]); ([98]%N, SList [])]) [97]%N in
+  wf t = true
+  /\ pr t = [TIdent [83]; TLCurly; TIdent [97]; TColon; TLBracket; TNumber [49]; TComma; TNumber [50]; TPlus;
+            TIdent [120]; TRBracket; TComma; TIdent [98]; TColon; TLBracket; TRBracket; TRCurly; TPeriod; TIdent [97]]%N
+  /\ parse (pr t) = Ok [desugar t] [].
 Proof. vm_compute. repeat split; reflexivity. Qed.
 
 (* inputs outside the grammar are rejected by the model (not reinterpreted) *)
